@@ -53,7 +53,13 @@ def render(us, style, rng, record=None):
                 put("\n")
             n = rng.randrange(1, 900)
             f = rng.choice(["a.h", "dir/b.c", "f.c"])
-            parts.append('# %d "%s"\n' % (n, f))
+            form = rng.random()
+            if form < 0.5:
+                parts.append('# %d "%s"\n' % (n, f))
+            elif form < 0.8:      # gcc linemarker with flags
+                parts.append('# %d "%s" %s\n' % (n, f, " ".join(str(rng.randrange(1, 5)) for _ in range(rng.randrange(1, 4)))))
+            else:
+                parts.append('#line %d "%s"\n' % (n, f))
             state["line"], state["col"], state["file"] = n, 1, f
         if record is not None:
             record.append((val, state["line"], state["col"], state["file"]))
